@@ -76,6 +76,15 @@ PROP = {
             "files) and one of ~2 MiB per run (listpack back-length steps), module values (type 7) and module aux data with both "
             "policies (expected failures are checked as such), the same key name in several source DBs, the empty key, "
             "IDLETIME/FREQ expectations taken from the dataset. "
+            "Round 2: containers of 99/100/101/200/201/250 elements (the 100-command pipeline batches of the expansion path), one "
+            "listpack set and one listpack hash of >= 65535 elements per run (count field 65535 = unknown), LZF strings of "
+            "9-12 KiB with back references 2048-8192 bytes back, a ReplaceHashTag lane (1/4 of cases + every 8th file with "
+            "{tagged} keys and streams with groups/PEL: XGROUP/XCLAIM/XSETID key positions). Expiry oracle: the double records "
+            "the absolute expiry each PEXPIRE / PEXPIREAT / RESTORE [ABSTTL] really establishes (target clock AT the request + "
+            "ttl); the monitor accepts it when it is not early and late by at most the time the entry's own requests had taken "
+            "(max observed lateness is in the stats: max_expiry_lateness_ms), so a more exact implementation is not flagged. "
+            "A parse has no wall-clock limit while it makes progress (bytes read / entries / commands); only 120 s without "
+            "any progress on a well-formed file is reported (parser-hang). "
             "distinct_nontrivial = (kind, value-shape) classes seen",
     "trusted": [
         "RDB on-disk encodings as transcribed in Model/Rdb/{Str,Ziplist,Listpack,Stream,Enc}.lean (encoders = specification: "
@@ -98,11 +107,14 @@ PROP = {
         "absence of filtered keys) is tied with the decision given as prefix/any-range membership",
         "a key replayed with TTL 1 ms (already past its expiry) is taken to be gone before the next entry touches it "
         "(logical clock of the target double and of the model's existence table); on a real server this is a 1 ms race",
-        "fixed in the harness, absent from the model: ReplaceHashTag=false, KeyExistsLog=false, standalone target "
+        "fixed in the harness, absent from the model: KeyExistsLog=false, standalone target "
         "(cluster targets: SELECT is a no-op, RESTORE through the cluster client), NewRedisConn (auth, initial DB), the PING "
         "rdbReplay sends after 3 s of filtered entries",
         "RDB types 22-25 (hashes with field TTL, Redis 7.4/8.x) are unknown to NewParser: a snapshot containing one ends the "
         "sync with an error; they are outside the encodings the property enumerates",
+        "the request-by-request diff of the worker logs against the Lean model is the TIE (it fails on any request-level "
+        "change, also a harmless one, and is then reported as `no-failing-input-found`); the property itself is judged by "
+        "the keyspace monitor",
         "which value types a target version can RESTORE (double: 4.x <= 14, 5/6 <= 15, 7.x <= 21, 8.x all) is a transcription",
     ],
     "partial": [
@@ -116,17 +128,17 @@ PROP = {
         "(header_roundtrip, footer_roundtrip; the opcodes before a key are covered inside chunked_roundtrip's next_at_key) are not "
         "yet composed into ONE theorem over parseRdb(rdbFile f) + fanOut for a whole dataset (AUX/SELECTDB/RESIZEDB/slot-info/"
         "function items between keys, multi-DB target state); that composition is covered by correspondence and the monitor",
-        "fanout_parallel_partial: fanOut_keeps_order + fanOut_same_key give per-worker order and same-key routing; that the "
-        "final keyspace does not depend on `parallel` (entries of different keys commute) is not proved, only exercised "
-        "(parallel 1-4 against one keyspace monitor)",
+        "fanout_parallel_partial: fanOut_keeps_order is close to the definition of the model's fan-out (fanOutTrace comes from "
+        "the same recursion; it says a worker's log is append-only and extended only by its own entries, in a SEQUENTIAL fold "
+        "with one shared existence table) and fanOut_same_key is one line; that the final keyspace does not depend on "
+        "`parallel` (entries of different keys commute, real goroutine interleavings) is not proved, only exercised "
+        "(parallel 1-4 against one keyspace monitor, per-worker request logs)",
         "existing_key_partial: expand_path / expand_path_final / expand_roundtrip_frame are for a key that does not exist on "
         "the target; the probe+DEL branch for an existing key under `replace` is in the model and the correspondence "
         "(pre-populated keys) but its theorem belongs to C20; raw_is_encode has no counterpart for streams and modules "
         "(their RESTORE payload is tied by correspondence + the independent CRC only)",
         "zset_v1_scores_partial: RDB_TYPE_ZSET (type 3, Redis < 4.0) ASCII scores are modelled for integers below 2^53, inf, nan",
         "zipmap_partial: type 9 (Redis < 2.6) modelled for < 254 items of < 253 bytes",
-        "listpack_65535_partial: a listpack whose element count field is 65535 (unknown) is read as a count by the code; "
-        "values of >= 65535 listpack elements are outside the theorem's hypotheses (lpWf) and not generated",
         "module values (type 6/7) are opaque: RESTORE path only, expansion refused by the code; module aux skipped/refused per policy",
     ],
     "driver": "drv_C03",
